@@ -10,7 +10,7 @@ import random
 import tempfile
 import traceback
 
-from harness.common import np
+from harness.common import quiet_loop, np
 from harness import scen
 
 import pandas as pd  # noqa: E402
@@ -72,7 +72,7 @@ def arb_event(inds=(("rA", "agri"),), loss=0.5, occ=2, dur=1, tau=3, curve="line
 
 def run_loop(sc, outdir=None):
     sim = scen.build_sim(sc, outdir=outdir)
-    sim.loop()
+    quiet_loop(sim)
     return sim
 
 
@@ -123,7 +123,7 @@ def f3():
     tb = base_table()
     sc1 = mk_sc(tb, base_cfg(), events=[rec_event(tb, base_cfg())], T=6, save_records=["production_realised"])
     sim1 = scen.build_sim(sc1)
-    sim1.loop()
+    quiet_loop(sim1)
     before = sim1.production_realised.to_numpy().copy()
     sc2 = mk_sc(tb, base_cfg(), T=6, save_records=["production_realised"])
     sim2 = scen.build_sim(sc2)
